@@ -102,6 +102,8 @@ def check_config(ctx, F, tag):
     if not isinstance(ctx, Relabel):
         import rltables, c01
         rltables.check_tables(ctx, F, tag, "C11.R6.rl")
+        import c06
+        c06.check_sparse_bucket_count(ctx, F, tag, "C11.R6.sparse-bucket-count")     # every route into the sparse vector sizes `high` by it
         c01.check_select_layout(Relabel(ctx, {"C01.R4.select-store-read-agreement": "C11.R6.select-store-read-agreement"}), F, tag)
     # ---------------- R4: From<RawVector> for BitVector counts set bits with a popcount over whole words, so the conversion is
     # canonical (equal to what the bit-at-a-time route builds) only while the bits past `len` in the last word are zero
